@@ -276,9 +276,14 @@ def run(run_, ctx):
     usz = lambda f, n: f.argc == n and all(f.locals[i]["ty"] == "usize" for i in range(0, n + 1))
     fmax = [f for f in pc.fns if f.name == "max" and free(f) and usz(f, 2)]
     if len(fmax) == 1:
-        ls = sorted(summ.lines(summ.summarize(F, fmax[0])))
-        okm = ls in (["if arg1 <= arg2: - => arg2", "if arg2 < arg1: - => arg1"],
-                     ["if arg1 < arg2: - => arg2", "if arg2 <= arg1: - => arg1"])
+        import summ2
+        got = summ2.summarize(F, fmax[0])
+        L = lambda lo, hi: [[["lin", "arg1 - arg2", [[lo, hi]]]]]
+        vars_ = {"arg1 - arg2": [["arg1", "1", True], ["arg2", "-1", True]]}
+        mk = lambda a, b: {"outcomes": [{"text": "- => arg1", "when": L(*a)}, {"text": "- => arg2", "when": L(*b)}], "vars": vars_, "truncated": False}
+        # the larger argument on both sides; on a tie either (they are equal)
+        okm = any(not summ2.compare(mk(a, b), got) for a, b in (((1, None), (None, 0)), ((0, None), (None, -1))))
+        ls = [o["text"] for o in got["outcomes"]]
         run_.check(okm, "H", "max", "helper `max` does not return the larger of its arguments on both paths", fmax[0].where(), found=ls)
     elif any(a[0] == "call" and a[1] == "max" for p_ in polys.values() for m in p_ for a in m):
         run_.bad("H", "max", "a size constant calls a helper `max` that was not found")
